@@ -508,10 +508,16 @@ func runTkHistory(r *h.Report, d *h.Driver, ev *tkEvents, base int, facts string
 				}
 				if tkSet(postS) != tkSet(keepS) || tkSet(postB) != tkSet(keepB) {
 					key := "C10/keys-teardown-leaves-own-entry"
-					for _, x := range append(append([]string{}, keepS...), keepB...) {
-						if !strings.Contains(" "+tkSet(postS)+" "+tkSet(postB)+" ", " "+x+" ") {
-							key = "C10/keys-teardown-removes-other-peers-entry"
+					missing := func(keep, post []string) bool {
+						for _, x := range keep {
+							if !strings.Contains(" "+tkSet(post)+" ", " "+x+" ") {
+								return true
+							}
 						}
+						return false
+					}
+					if missing(keepS, postS) || missing(keepB, postB) {
+						key = "C10/keys-teardown-removes-other-peers-entry"
 					}
 					r.SpecFail(key, done, fmt.Sprintf("after %s: subscriptions %s (expected %s), bindings %s (expected %s)", op, tkSet(postS), tkSet(keepS), tkSet(postB), tkSet(keepB)))
 				}
